@@ -128,6 +128,4 @@ def wellformed_tg_snap(s):
         for e in t["entries"]:
             if "\r" in e[-1]:
                 return False
-            if any(v < 0 for v in e[:-1]):
-                return False
-    return s["min"] >= 0
+    return True  # times below zero are legal in Praat and are judged like any other
